@@ -128,7 +128,8 @@ func scalar(v reflect.Value) string {
 	case reflect.Uint8, reflect.Uint16, reflect.Uint32, reflect.Uint64:
 		return strconv.FormatUint(v.Uint(), 10)
 	case reflect.Float32:
-		return strconv.FormatUint(uint64(math.Float32bits(float32(v.Float()))), 10)
+		// no float32->float64->float32 conversion: it would quiet signalling NaNs
+		return strconv.FormatUint(uint64(math.Float32bits(*(v.Addr().Interface().(*float32)))), 10)
 	case reflect.Float64:
 		return strconv.FormatUint(math.Float64bits(v.Float()), 10)
 	}
@@ -262,7 +263,7 @@ func setScalar(r *rand.Rand, v reflect.Value, mode int, strLen int) {
 	case reflect.Uint64:
 		v.SetUint(x)
 	case reflect.Float32:
-		v.SetFloat(float64(math.Float32frombits(uint32(x))))
+		*(v.Addr().Interface().(*float32)) = math.Float32frombits(uint32(x))
 	case reflect.Float64:
 		v.SetFloat(math.Float64frombits(x))
 	}
